@@ -330,6 +330,8 @@ impl Report {
             return true;
         }
         let mut g = self.lock();
+        // the failing case is itself a case this run explored
+        g.samples.push(json!({"sub_check": sub, "case": case, "outcome": format!("violation: {}", fail.sig)}));
         // One replay file per distinct signature per run.
         if g.violations.iter().any(|(s, _)| s == &fail.sig) {
             return false;
@@ -477,10 +479,90 @@ fn panic_message(p: Box<dyn std::any::Any + Send>) -> String {
 }
 
 /// Run `check` converting a panic into a `Fail` with signature `panic`.
-pub fn guarded<C>(check: &(dyn Fn(&C) -> CheckResult + Sync), case: &C) -> CheckResult {
-    match catch_unwind(AssertUnwindSafe(|| check(case))) {
-        Ok(r) => r,
-        Err(p) => Err(Fail::new("panic", format!("panicked: {}", panic_message(p)))),
+pub fn guarded<C: Debug>(check: &(dyn Fn(&C) -> CheckResult + Sync), case: &C) -> CheckResult {
+    let _running = running::enter(case);
+    let mut attempt = 0;
+    loop {
+        let r = match catch_unwind(AssertUnwindSafe(|| check(case))) {
+            Ok(r) => r,
+            Err(p) => Err(Fail::new("panic", format!("panicked: {}", panic_message(p)))),
+        };
+        // A failure of the harness's own plumbing (no free port, connect refused by the
+        // harness's own listener under load) is retried before it is reported as
+        // inconclusive; it is never a verdict about the property.
+        match &r {
+            Err(f) if f.sig.starts_with("harness-") && attempt < 3 => {
+                attempt += 1;
+                std::thread::sleep(std::time::Duration::from_millis(150 * attempt));
+            }
+            _ => return r,
+        }
+    }
+}
+
+/// Which case each worker thread is running right now (for the hang report of the
+/// harness time budget): the slot holds a borrowed pointer that is only dereferenced
+/// under the slot's lock, which the worker also takes before the case goes away.
+pub mod running {
+    use std::fmt::Debug;
+    use std::sync::{Arc, Mutex};
+    use std::time::Instant;
+
+    struct Slot {
+        cur: Mutex<Option<(usize, fn(usize) -> String, Instant)>>,
+    }
+    static SLOTS: Mutex<Vec<Arc<Slot>>> = Mutex::new(Vec::new());
+    thread_local! {
+        static MINE: Arc<Slot> = {
+            let s = Arc::new(Slot { cur: Mutex::new(None) });
+            SLOTS.lock().unwrap_or_else(|e| e.into_inner()).push(s.clone());
+            s
+        };
+    }
+    pub struct Guard(Option<Arc<Slot>>);
+    impl Drop for Guard {
+        fn drop(&mut self) {
+            if let Some(s) = &self.0 {
+                *s.cur.lock().unwrap_or_else(|e| e.into_inner()) = None;
+            }
+        }
+    }
+    fn fmt_case<C: Debug>(p: usize) -> String {
+        // SAFETY: called only while the slot lock is held and the slot still names `p`;
+        // the worker clears the slot (under the same lock) before the case is dropped.
+        let c: &C = unsafe { &*(p as *const C) };
+        let mut s = format!("{c:?}");
+        if s.len() > 2000 {
+            s.truncate(2000);
+            s.push('…');
+        }
+        s
+    }
+    pub fn enter<C: Debug>(case: &C) -> Guard {
+        let slot = MINE.try_with(|s| s.clone()).ok();
+        if let Some(s) = &slot {
+            let mut g = s.cur.lock().unwrap_or_else(|e| e.into_inner());
+            // nested guarded() calls keep the outermost case
+            if g.is_some() {
+                return Guard(None);
+            }
+            *g = Some((case as *const C as usize, fmt_case::<C>, Instant::now()));
+        }
+        Guard(slot)
+    }
+    /// Cases that have been running for at least `min_secs`.
+    pub fn long_running(min_secs: u64) -> Vec<String> {
+        let slots = SLOTS.lock().unwrap_or_else(|e| e.into_inner()).clone();
+        let mut out = Vec::new();
+        for s in slots {
+            let g = s.cur.lock().unwrap_or_else(|e| e.into_inner());
+            if let Some((p, f, t)) = *g
+                && t.elapsed().as_secs() >= min_secs
+            {
+                out.push(format!("running for {} s: {}", t.elapsed().as_secs(), f(p)));
+            }
+        }
+        out
     }
 }
 
@@ -719,7 +801,7 @@ pub fn run_enum<C>(
 
 /// Replay helper: decode the `case` field of a replay document as `C` and run
 /// `check` on it, bypassing proptest.
-pub fn replay_case<C: DeserializeOwned>(
+pub fn replay_case<C: DeserializeOwned + Debug>(
     case: &Value,
     check: &(dyn Fn(&C) -> CheckResult + Sync),
 ) -> Result<(), Fail> {
